@@ -85,6 +85,13 @@ def gen_scenario(seed):
                 path = rng.pick(names)
             if who != "human":
                 steps.append({"op": "human_checkpoint", "paths": [path]})
+                others = [n for n in names if n != path and n in w.files]
+                if others and rng.chance(1, 6):
+                    other = rng.pick(others)        # the person types in another file while the agent is at work
+                    k2 = S.gen_edit(rng, w, other, "human", "plain")
+                    steps.append({"op": "edit", "who": "human", "path": other, "kind": k2 + "/during-agent-run",
+                                  "lines": [list(l) for l in w.files[other]]})
+                    tags.append("human-edit-during-agent-run")
             if who == "human" and path in head and w.files.get(path) != head[path] and rng.chance(1, 6):
                 # the person puts the file back to its HEAD content (git restore / checkout -- / undo)
                 w.files[path] = [list(l) for l in head[path]]
